@@ -2,6 +2,7 @@ package scenarios
 
 import (
 	"bytes"
+	"fmt"
 	"sync/atomic"
 	"testing"
 	"time"
@@ -87,5 +88,76 @@ func TestTransactionSeesItsOwnDeletesThroughGetAndHas(t *testing.T) {
 	must(t, tr.Put([]byte("k"), []byte("w"), nil))
 	if ok, err := tr.Has([]byte("k"), nil); err != nil || !ok {
 		t.Fatalf("Has of a key rewritten in the transaction: %v %v", ok, err)
+	}
+}
+
+// obligation leveldb.(*Transaction).flush:assert(C11:buffer-wiped-in-place-only-when-nobody-else-holds-it ...)
+// An iterator obtained from an open transaction must show the transaction's
+// writes (layered over the DB state at its start) as of the moment it was
+// created, even if the transaction keeps writing and spills its private
+// buffer into a table while the iterator is still alive.
+func TestTransactionIteratorSurvivesABufferSpill(t *testing.T) {
+	stor := storage.NewMemStorage()
+	db, err := leveldb.Open(stor, &opt.Options{WriteBuffer: 64 << 10})
+	if err != nil {
+		t.Fatal(err)
+	}
+	defer db.Close()
+
+	// State of the DB at the start of the transaction.
+	if err := db.Put([]byte("base"), []byte("base-value"), nil); err != nil {
+		t.Fatal(err)
+	}
+
+	tr, err := db.OpenTransaction()
+	if err != nil {
+		t.Fatal(err)
+	}
+	defer tr.Discard()
+
+	const n = 10
+	for i := 0; i < n; i++ {
+		if err := tr.Put([]byte(fmt.Sprintf("key-%02d", i)), []byte(fmt.Sprintf("val-%02d", i)), nil); err != nil {
+			t.Fatal(err)
+		}
+	}
+
+	// Iterator created, but not yet used, while the writes are still in the
+	// transaction's private buffer.
+	it := tr.NewIterator(nil, nil)
+	defer it.Release()
+
+	// Keep writing until the private buffer has been spilled at least once.
+	big := bytes.Repeat([]byte{'x'}, 4<<10)
+	// (64 KiB write buffer, 4 KiB values: 64 puts spill it several times)
+	for i := 0; i < 64; i++ {
+		if err := tr.Put([]byte(fmt.Sprintf("zfill-%04d", i)), big, nil); err != nil {
+			t.Fatal(err)
+		}
+	}
+
+	// Point reads through the transaction still see everything.
+	for i := 0; i < n; i++ {
+		v, err := tr.Get([]byte(fmt.Sprintf("key-%02d", i)), nil)
+		if err != nil || string(v) != fmt.Sprintf("val-%02d", i) {
+			t.Fatalf("tr.Get key-%02d: %q, %v", i, v, err)
+		}
+	}
+
+	// The iterator must show: base + key-00..key-09 (its snapshot of the
+	// transaction), nothing else.
+	var got []string
+	for it.Next() {
+		got = append(got, string(it.Key())+"="+string(it.Value()))
+	}
+	if err := it.Error(); err != nil {
+		t.Fatal(err)
+	}
+	want := []string{"base=base-value"}
+	for i := 0; i < n; i++ {
+		want = append(want, fmt.Sprintf("key-%02d=val-%02d", i, i))
+	}
+	if fmt.Sprint(got) != fmt.Sprint(want) {
+		t.Fatalf("transaction iterator lost the transaction's writes:\n got  %v\n want %v", got, want)
 	}
 }
